@@ -75,7 +75,7 @@ META = {
         design="DESIGN.md section 4, C20"),
     "C08": dict(
         technique="metamorphic property-based testing (rapidcheck, one process per case): world file and query moved by a generated rigid motion / longitude offset, answers compared with a boundary-robust tolerance",
-        text="Generated worlds (every feature and model type, ridges, dip points, curved trenches, cross section) are rewritten under a rotation about the vertical plus translation (cartesian) or a common longitude offset (spherical; most offsets carry a feature onto +-180, beyond it, or a full turn) and queried at the moved points: temperature, compositions, grains and the tag string must agree to 1e-6/1e-7 relative. The 2D interface is compared too (the cross section moves with the world). A second sub-check aims at ridge-dependent cooling models: oblique ridges with one spreading velocity per point, offsets that put the ridge in another 360-degree copy than the query's natural longitude.",
+        text="Generated worlds (every feature and model type, ridges, dip points, curved trenches, cross section) are rewritten under a rotation about the vertical plus translation (cartesian) or a common longitude offset (spherical; most offsets carry a feature onto +-180, beyond it, or a full turn) and queried at the moved points: temperature, compositions, grains and the tag string must agree to 1e-6 relative (the level of the Newton iteration that finds the trench foot). The 2D interface is compared too (the cross section moves with the world). A second sub-check aims at ridge-dependent cooling models: oblique ridges with one spreading velocity per point, offsets that put the ridge in another 360-degree copy than the query's natural longitude.",
         note="Plume 'rotation angles' are turned with the world; velocities excluded; cases where the original world's own answer changes within 2 cm are skipped and counted.",
         design="DESIGN.md section 4, C08"),
     "C09": dict(
